@@ -134,6 +134,41 @@ theorem inverse_equatorial_of_galactic (l b ra dec : ℝ) (hb : -90 < b ∧ b < 
   obtain ⟨lon, lat, hr, hd2, _, _⟩ := equatorial2galactic_spec ra dec hdec
   exact ⟨lon, lat, hr, by rw [hd2, hd, galacticOfEquatorial_equatorialOfGalactic]⟩
 
+/-- Mutually inverse IN COORDINATES: for a right ascension in [0°, 360°) and a declination strictly between the poles,
+    converting to ecliptical and back returns exactly the same two numbers, for every obliquity. -/
+theorem roundtrip_equatorial_ecliptical (α δ ε lon lat : ℝ) (hα : 0 ≤ α ∧ α < 360) (hδ : -90 < δ ∧ δ < 90)
+    (h : equatorial2ecliptical α δ ε = .ok (lon, lat)) (hlat : -90 < lat ∧ lat < 90) :
+    ecliptical2equatorial lon lat ε = .ok (α, δ) := by
+  obtain ⟨lon', lat', h', hd, _, _⟩ := equatorial2ecliptical_spec α δ ε hδ
+  rw [h] at h'; injection h' with h'; injection h' with e1 e2; subst e1 e2
+  obtain ⟨ra, dec, hr, hd2, hra, hdec⟩ := ecliptical2equatorial_spec lon lat ε hlat
+  have hdir : dir α δ = dir ra dec := by rw [hd2, hd, rotX_neg_rotX]
+  obtain ⟨x1, x2⟩ := dir_inj hδ hdec (by rw [abs_lt]; constructor <;> linarith [hα.1, hα.2, hra.1, hra.2]) hdir
+  rw [hr, ← x1, ← x2]
+
+/-- The same for galactic coordinates. -/
+theorem roundtrip_equatorial_galactic (α δ lon lat : ℝ) (hα : 0 ≤ α ∧ α < 360) (hδ : -90 < δ ∧ δ < 90)
+    (h : equatorial2galactic α δ = .ok (lon, lat)) (hlat : -90 < lat ∧ lat < 90) :
+    galactic2equatorial lon lat = .ok (α, δ) := by
+  obtain ⟨lon', lat', h', hd, _, _⟩ := equatorial2galactic_spec α δ hδ
+  rw [h] at h'; injection h' with h'; injection h' with e1 e2; subst e1 e2
+  obtain ⟨ra, dec, hr, hd2, hra, hdec⟩ := galactic2equatorial_spec lon lat hlat
+  have hdir : dir α δ = dir ra dec := by rw [hd2, hd, equatorialOfGalactic_galacticOfEquatorial]
+  obtain ⟨x1, x2⟩ := dir_inj hδ hdec (by rw [abs_lt]; constructor <;> linarith [hα.1, hα.2, hra.1, hra.2]) hdir
+  rw [hr, ← x1, ← x2]
+
+/-- The same for horizontal coordinates (hour angle in (-180°, 180°], the range the source returns), for every
+    observer latitude. -/
+theorem roundtrip_equatorial_horizontal (H δ φ azi ele : ℝ) (hH : -180 < H ∧ H ≤ 180) (hδ : -90 < δ ∧ δ < 90)
+    (h : equatorial2horizontal H δ φ = .ok (azi, ele)) (hele : -90 < ele ∧ ele < 90) :
+    horizontal2equatorial azi ele φ = .ok (H, δ) := by
+  obtain ⟨a', e', h', hd, _, _⟩ := equatorial2horizontal_spec H δ φ hδ
+  rw [h] at h'; injection h' with h'; injection h' with e1 e2; subst e1 e2
+  obtain ⟨H', dec, hr, hd2, hH', hdec⟩ := horizontal2equatorial_spec azi ele φ hele
+  have hdir : dir H δ = dir H' dec := by rw [hd2, hd]; exact (tiltT_tilt _ _).symm
+  obtain ⟨x1, x2⟩ := dir_inj hδ hdec (by rw [abs_lt]; constructor <;> linarith [hH.1, hH.2, hH'.1, hH'.2]) hdir
+  rw [hr, ← x1, ← x2]
+
 /-! ### "keep the angle between any two directions unchanged" -/
 
 /-- All the frame rotations are orthogonal: they preserve the dot product of any two vectors. -/
